@@ -147,7 +147,8 @@ func (x *Exec) polyLimbs(v Value) []Slice {
 
 func sliceHasFE(s Slice) bool {
 	for i := 0; i < s.Len; i++ {
-		if _, ok := s.Obj.Cells[s.Off+i].(*FE); ok {
+		switch s.Obj.Cells[s.Off+i].(type) {
+		case *FE, *UFE:
 			return true
 		}
 	}
@@ -297,7 +298,12 @@ func samplerStub(kind string, add bool) feStub {
 			r, _ := x.feS().radix(q)
 			l := limbs[k]
 			for i := 0; i < l.Len; i++ {
-				f := x.newAtom(fmt.Sprintf("%s.%d[%d]", name, k, i), class, q)
+				an := fmt.Sprintf("%s.%d[%d]", name, k, i)
+				if kind != "uniform" {
+					// a small integer is the same integer in every limb: one name, interned per modulus
+					an = fmt.Sprintf("%s[%d]", name, i)
+				}
+				f := x.newAtom(an, class, q)
 				if mont {
 					f = x.feReduced(f.P.scale(r), q, 1)
 				}
@@ -355,12 +361,56 @@ func init() {
 				}
 			}
 		}
-		class := x.classOfSlice(inQ[0])
-		name := x.fresh("ext")
 		for j := 0; j <= levelP; j++ {
 			q := ri.moduli[j]
 			for i := 0; i < outP[j].Len; i++ {
-				x.setCell(outP[j].Obj, outP[j].Off+i, x.newAtom(fmt.Sprintf("%s.P%d[%d]", name, j, i), class, q))
+				x.setCell(outP[j].Obj, outP[j].Off+i, x.sameSmall(inQ[0].Obj.Cells[inQ[0].Off+i], q, "ExtendBasisSmallNormAndCenter"))
+			}
+		}
+		return nil, true
+	}
+
+	// rlwe.ExtendBasisSmallNormAndCenterNTTMontgomery(rQ, rP, polQ, buff, polP): polQ (limb 0, NTT+Montgomery) holds a
+	// small polynomial; polP receives the same small polynomial modulo every modulus of rP (NTT+Montgomery).
+	feStubs[lat+"/core/rlwe.ExtendBasisSmallNormAndCenterNTTMontgomery"] = func(x *Exec, fn *ssa.Function, args []Value) (Value, bool) {
+		polQ := x.polyLimbs(args[2])
+		if len(polQ) == 0 || !sliceHasFE(polQ[0]) {
+			return nil, false
+		}
+		polP := x.polyLimbs(args[4])
+		pt := fn.Signature.Params().At(0).Type()
+		riQ := x.ringInfoAll(args[0], pt, 0)
+		riP := x.ringInfoOf(args[1], pt)
+		q0 := riQ.moduli[0]
+		n := polQ[0].Len
+		prV, _ := x.fieldOf(riQ.subs[0], riQ.subT, "PrimitiveRoot")
+		nrV, _ := x.fieldOf(riQ.subs[0], riQ.subT, "NthRoot")
+		inv := x.nttMatrix(n, q0, x.u64(prV), x.u64(nrV), true)
+		_, rinv0 := x.feS().radix(q0)
+		coeff := make([]*FE, n)
+		for i := 0; i < n; i++ {
+			acc := newFEPoly(q0)
+			for j := 0; j < n; j++ {
+				acc = acc.add(x.feArg(polQ[0].Obj.Cells[polQ[0].Off+j], q0).P.scale(inv[i][j]))
+			}
+			coeff[i] = x.feReduced(acc.scale(rinv0), q0, 1)
+		}
+		for k := 0; k <= riP.level; k++ {
+			q := riP.moduli[k]
+			prK, _ := x.fieldOf(riP.subs[k], riP.subT, "PrimitiveRoot")
+			nrK, _ := x.fieldOf(riP.subs[k], riP.subT, "NthRoot")
+			fwd := x.nttMatrix(n, q, x.u64(prK), x.u64(nrK), false)
+			r, _ := x.feS().radix(q)
+			small := make([]*FE, n)
+			for i := 0; i < n; i++ {
+				small[i] = x.sameSmall(coeff[i], q, "ExtendBasisSmallNormAndCenterNTTMontgomery")
+			}
+			for j := 0; j < n; j++ {
+				acc := newFEPoly(q)
+				for i := 0; i < n; i++ {
+					acc = acc.add(small[i].P.scale(fwd[j][i]))
+				}
+				x.setCell(polP[k].Obj, polP[k].Off+j, x.feReduced(acc.scale(r), q, 1))
 			}
 		}
 		return nil, true
@@ -454,7 +504,138 @@ func init() {
 	feStubs["("+R+".Ring).DivFloorByLastModulusManyNTT"] = divLast(true, true)
 	feStubs["("+R+".Ring).DivRoundByLastModulusMany"] = divLast(true, true)
 	feStubs["("+R+".Ring).DivFloorByLastModulusMany"] = divLast(true, true)
+	// Decomposer.DecomposeAndSplit(levelQ, levelP, nbPi, i, p0Q, p1Q, p1P): digit i of the RNS decomposition
+	// (coefficient domain): on the limbs of its own group the digit is the input itself (d_i ≡ c mod q_k), on every
+	// other Q limb and on the P limbs it is a fresh digit-class atom (the centred reconstruction; contract from C02).
+	feStubs["(*"+R+".Decomposer).DecomposeAndSplit"] = func(x *Exec, fn *ssa.Function, args []Value) (Value, bool) {
+		p0Q := x.polyLimbs(args[5])
+		if len(p0Q) == 0 || !sliceHasFE(p0Q[0]) {
+			return nil, false
+		}
+		levelQ, levelP, nbPi, i := x.constInt(args[1], "levelQ"), x.constInt(args[2], "levelP"), x.constInt(args[3], "nbPi"), x.constInt(args[4], "i")
+		p1Q, p1P := x.polyLimbs(args[6]), x.polyLimbs(args[7])
+		rt := fn.Signature.Recv().Type()
+		rq, rqt := x.fieldOf(args[0], rt, "ringQ")
+		riQ := x.ringInfoAll(rq, rqt, levelQ)
+		name := x.fresh("dig")
+		for k := 0; k <= levelQ; k++ {
+			own := k >= i*nbPi && k < (i+1)*nbPi
+			for n := 0; n < p1Q[k].Len; n++ {
+				if own {
+					x.setCell(p1Q[k].Obj, p1Q[k].Off+n, p0Q[k].Obj.Cells[p0Q[k].Off+n])
+				} else {
+					x.setCell(p1Q[k].Obj, p1Q[k].Off+n, x.newAtom(fmt.Sprintf("%s.Q%d[%d]", name, k, n), ClsDigit, riQ.moduli[k]))
+				}
+			}
+		}
+		if levelP >= 0 {
+			rp, rpt := x.fieldOf(args[0], rt, "ringP")
+			if p, ok := rp.(Ptr); ok && p.Obj != nil {
+				riP := x.ringInfoAll(rp, rpt, levelP)
+				for k := 0; k <= levelP; k++ {
+					for n := 0; n < p1P[k].Len; n++ {
+						x.setCell(p1P[k].Obj, p1P[k].Off+n, x.newAtom(fmt.Sprintf("%s.P%d[%d]", name, k, n), ClsDigit, riP.moduli[k]))
+					}
+				}
+			}
+		}
+		return nil, true
+	}
+
+	// ring.MaskVec(p1, w, mask, p2): power-of-two digit  d = (x >> w) & mask  of a residue x in [0,q).  The digit is
+	// a small integer used with every modulus (universal value).  Recombination fact (exact integer identity
+	// Σ_j d_j·2^{j·width} = x when the digits cover all bits of q): the digit at shift 0 is represented, for the
+	// modulus of x itself, as  x − Σ_{j≥1} 2^{j·width}·d_j  over ALL digits needed to cover q; digits the code never
+	// computes therefore remain visible in the result.
+	feStubs[R+".MaskVec"] = func(x *Exec, fn *ssa.Function, args []Value) (Value, bool) {
+		p1, p2 := args[0].(Slice), args[3].(Slice)
+		if !sliceHasFE(p1) {
+			return nil, false
+		}
+		w := x.constInt(args[1], "shift")
+		mask := x.u64(args[2])
+		width := bits.Len64(mask)
+		if mask == 0 || mask&(mask+1) != 0 {
+			panic(x.errf("MaskVec stub: mask %d is not 2^k-1", mask))
+		}
+		st := x.feS()
+		for n := 0; n < p1.Len; n++ {
+			src, ok := p1.Obj.Cells[p1.Off+n].(*FE)
+			if !ok {
+				panic(x.errf("MaskVec stub: mixed slice"))
+			}
+			q := src.P.q
+			if src.Hi.Cmp(new(big.Int).SetUint64(q)) >= 0 {
+				x.addObligation(&Obligation{ID: "bit-decomposition-input-reduced", Kind: "range", Cond: x.ts.False, Where: "MaskVec on a value not known to be below q"})
+			}
+			// identify the source coefficient by its polynomial
+			key := fmt.Sprintf("%d|%s", q, x.polyString(src.P, 1<<30))
+			id, ok := st.decompIDs[key]
+			if !ok {
+				id = len(st.decompIDs) + 1
+				st.decompIDs[key] = id
+			}
+			j := w / width
+			u := &UFE{Name: fmt.Sprintf("bit%d.%d", id, j), Class: ClsDigit, Hi: mask}
+			if w%width != 0 {
+				panic(x.errf("MaskVec stub: shift %d is not a multiple of the digit width %d", w, width))
+			}
+			if j == 0 {
+				need := (bits.Len64(q-1) + width - 1) / width
+				p := src.P
+				for jj := 1; jj < need; jj++ {
+					d := x.newAtom(fmt.Sprintf("bit%d.%d", id, jj), ClsDigit, q)
+					c := powmod(2, uint64(jj*width), q)
+					p = p.add(d.P.scale(c).neg())
+				}
+				u.Special = map[uint64]*FE{q: {P: p, Lo: bigZero, Hi: new(big.Int).SetUint64(mask)}}
+			}
+			x.setCell(p2.Obj, p2.Off+n, u)
+		}
+		return nil, true
+	}
 	_ = strings.Join
+}
+
+// sameSmall returns "the same small integer" modulo q: the value must be a single small-class atom (coefficient
+// 1 or -1) or a constant; anything else cannot be carried to another modulus in the algebraic model.
+func (x *Exec) sameSmall(v Value, q uint64, what string) *FE {
+	st := x.feS()
+	switch t := v.(type) {
+	case *Term:
+		if t.IsConst() {
+			return x.feFromConst(q, t)
+		}
+	case *UFE:
+		return x.instUFE(t, q)
+	case *FE:
+		if len(t.P.terms) == 0 {
+			return &FE{P: newFEPoly(q), Lo: bigZero, Hi: bigZero}
+		}
+		if len(t.P.terms) == 1 {
+			for k, c := range t.P.terms {
+				ids := monoIDs(k)
+				if len(ids) == 1 && (c == 1 || c == t.P.q-1) {
+					a := st.atoms[ids[0]]
+					if a.class == ClsSecret || a.class == ClsError || a.class == ClsRounding || a.class == ClsDigit {
+						f := x.newAtom(a.name, a.class, q)
+						if c != 1 {
+							return x.feReduced(f.P.neg(), q, 1)
+						}
+						return f
+					}
+				}
+				if len(ids) == 0 {
+					// small constant (centred)
+					if c <= t.P.q/2 {
+						return x.feReduced(feConst(q, c), q, 1)
+					}
+					return x.feReduced(feConst(q, q-(t.P.q-c)%q), q, 1)
+				}
+			}
+		}
+	}
+	panic(x.errf("%s: the value is not a single small atom (cannot be carried to another modulus in the algebraic model): %s", what, x.polyString(v.(*FE).P, 4)))
 }
 
 // ringInfoAll is ringInfoOf for an explicit level (views share the SubRings slice).
